@@ -31,7 +31,7 @@ def run(ctx):
     ctx.rule("C17-R4", "a batch kill recycles only elements that died: the bound of the recycled prefix counts completed kills")
     ctx.rule("C17-R3", "no index is lost in merge: every pending creation becomes alive or is reported dead (and then recycled by R1)")
     for cfg in (["A"] if ctx.tier == "quick" else ["A", "F", "N", "FN"]):
-        facts = ctx.facts(cfg)
+        facts = ctx.xfacts(cfg)
         model = AllocModel(facts)
         ctx.anchor("C17-R1", "free-list growers (EntityCache methods pushing onto `cache`)", model.growers)
         model.recyclers()
@@ -43,7 +43,9 @@ def run(ctx):
                 continue
             rec = model.recycle_sites(b)
             rblocks = {bb for bb, _ in rec}
-            for i, (bb, t) in enumerate(deaths):
+            ords = b.ordinals([bb for bb, _ in deaths])
+            for bb, t in deaths:
+                i = ords[bb]
                 nd += 1
                 ok, wit = b.must_pass(bb, rblocks)
                 ctx.ob("C17-R1", "%s die->recycle #%d" % (b.path, i), ok, b.loc(bb),
